@@ -24,6 +24,7 @@ from myst_parser.config.main import (
 )
 from myst_parser.mdit_to_docutils.base import DocutilsRenderer
 from myst_parser.mdit_to_docutils.transforms import (
+    CheckTransitions,
     CollectFootnotes,
     ResolveAnchorIds,
     SortFootnotes,
@@ -256,6 +257,7 @@ class Parser(RstParser):
             SortFootnotes,
             CollectFootnotes,
             ResolveAnchorIds,
+            CheckTransitions,
         ]
 
     def parse(self, inputstring: str, document: nodes.document) -> None:
